@@ -210,6 +210,9 @@ func propC02() *Prop {
 					js = append(js, j)
 				}
 			}
+			for _, s := range []int64{0, 1, 2} {
+				js = append(js, lbJob(fmt.Sprintf("C02/dispatch-after-history[%s,N=2,k=%d]", strategyNames[s], tierPick(tier, 4, 5)), "VerifC02History", s, tierPick(tier, 4, 5)))
+			}
 			return js
 		},
 		Assumptions: append([]string{"pool state is arbitrary: per backend any health flag, window end zero or any instant within 2^40 ns of now, any gauge 0..2^30, any weight 1..1024, any smooth-WRR running weight within +-2^20, any rotation counter < 2^63 (over-approximates every history of ejections, expiries, adds and removes)"}, commonAssumptions...),
@@ -243,6 +246,8 @@ func propC05() *Prop {
 				js = append(js, job("C05b/wrr-cycle[N=4,w<=4]", "loadbalancer", "VerifC05WRRCycle", 4, 4))
 			}
 			js = append(js, neg(job("C05b/negative-twin", "loadbalancer", "VerifC05NegWRR")))
+			js = append(js, job("C05c/wrr-bounded-drift-after-eject-recover[N=2,h=12,T=8]", "loadbalancer", "VerifC05WRRDrift", 2, 12, 8))
+			js = append(js, job(fmt.Sprintf("C05c/wrr-bounded-drift-after-eject-recover[N=3,h=%d,T=%d]", tierPick(tier, 12, 24), tierPick(tier, 8, 12)), "loadbalancer", "VerifC05WRRDrift", 3, tierPick(tier, 12, 24), tierPick(tier, 8, 12)))
 			for _, j := range js {
 				if j.LoopBound == 0 {
 					j.LoopBound = 64
@@ -255,7 +260,7 @@ func propC05() *Prop {
 			"quick":    "round_robin N<=5 with any rotation counter (2 consecutive windows for N<=4); least_connections N<=4 with any gauges 0..2^30 and any health state; smooth WRR exact cycle from a fresh pool built by AddBackend: N<=2 with weights 0..6, N=3 with weights 0..4",
 			"thorough": "round_robin N<=8; least_connections N<=6; WRR N=3 weights 0..6, N=4 weights 0..4",
 		},
-		Outside: []string{"bounded-drift clause of weighted_round_robin after membership/health histories (not yet encoded)", "concurrent pickers (see C12 for the pairwise race/atomicity check)", "pools above the stated sizes"},
+		Outside: []string{"bounded-drift clause after add/remove histories (eject/recover histories are encoded)", "concurrent pickers (see C12 for the pairwise race/atomicity check)", "pools above the stated sizes"},
 	}
 }
 
@@ -598,6 +603,9 @@ func propC11() *Prop {
 				j.MaxPaths = 3000000
 				js = append(js, j)
 			}
+			for i, n := range []string{"SetStrategy || AddBackend", "SetStrategy || RemoveBackend", "AddBackend || RemoveBackend", "SetStrategy || SetStrategy"} {
+				js = append(js, threadJob(lbJob("C11b/atomicity["+n+"]", "VerifC11Atomic", int64(i)), int(tierPick(tier, 2, 3))))
+			}
 			return js
 		},
 		Assumptions: append([]string{"operations go through the balancer's real AddBackend / RemoveBackend / SetStrategy / ListBackends / findHealthyBackend (the admin handlers' JSON layer is covered structurally by C10); reference model: a list of (name, address, weight) records", "names from {a,b,c}, weights 0..5, parsable or unparsable address, six strategy names incl. an unknown one; all backends healthy"}, commonAssumptions...),
@@ -605,7 +613,7 @@ func propC11() *Prop {
 			"quick":    "every history of <= 3 operations over {add, remove, set_strategy, request}, state compared with the model after every step",
 			"thorough": "<= 4 operations",
 		},
-		Outside: []string{"operations racing traffic (2-thread atomicity is examined pairwise under C12)", "in-flight proxied requests during a change"},
+		Outside: []string{"more than two concurrent admin actors", "in-flight proxied requests during a change"},
 	}
 }
 
